@@ -46,15 +46,21 @@ def build(log):
         rc, out, dt = sh("/venv/bin/python %s/translate_kernels.py" % HERE, 120)
         log.append("translate_kernels rc=%d %.1fs" % (rc, dt))
         broken = None
+        BROKEN_FILES.clear()
         if rc != 0:
             broken = "translator: " + out.strip().splitlines()[-1][:300] if out.strip() else "translator failed"
+            BROKEN_FILES.add("Gen/Kernels.v")
         if not (COQ / "Makefile").exists():
             sh("coq_makefile -f _CoqProject -o Makefile", 60, cwd=COQ)
-        rc2, out2, dt2 = sh("timeout 3000 make -j%d 2>&1" % (os.cpu_count() or 4), 3100, cwd=COQ)
+        rc2, out2, dt2 = sh("timeout 3000 make -k -j%d 2>&1" % (os.cpu_count() or 4), 3100, cwd=COQ)
         log.append("make rc=%d %.1fs" % (rc2, dt2))
         if rc2 != 0:
             m = re.findall(r'File "\./([^"]+)", line (\d+)', out2)
-            broken = (broken + "; " if broken else "") + "coq: " + (("%s:%s" % m[-1]) if m else out2[-300:])
+            for f, _ in m:
+                BROKEN_FILES.add(f)
+            if not m:
+                BROKEN_FILES.add("*")
+            broken = (broken + "; " if broken else "") + "coq: " + (", ".join("%s:%s" % x for x in m[:4]) if m else out2[-300:])
             log.append(out2[-1500:])
         drv = VERIF / "ocaml" / "driver"
         gen = VERIF / "ocaml" / "gen" / "sm.ml"
@@ -65,10 +71,14 @@ def build(log):
             log.append("ocaml rc=%d %.1fs" % (rc3, dt3))
             if rc3 != 0:
                 broken = (broken + "; " if broken else "") + "ocaml: " + out3[-300:]
+                BROKEN_FILES.add("*")
         return broken is None, broken
     finally:
         fcntl.flock(lock, fcntl.LOCK_UN)
         lock.close()
+
+
+BROKEN_FILES = set()
 
 
 def coqdep_closure(vfile):
@@ -187,7 +197,12 @@ def main():
     violations = list(ctx.violations)
     obligations_broken = []
     if not ok_build:
-        obligations_broken.append("build: " + str(broken))
+        # a broken file concerns this property if its theorems or the extracted model (which every check runs) depend on it
+        mine = set(coqdep_closure("Props/%s.v" % prop)) | set(coqdep_closure("Extract/Extract.v"))
+        if "*" in BROKEN_FILES or (BROKEN_FILES & mine):
+            obligations_broken.append("build: " + str(broken))
+        else:
+            log.append("build problem outside this property's theorems and the extracted model: " + str(broken))
     if not au["ok"]:
         obligations_broken.extend(au["problems"])
     for d in ctx.broken_correspondence:
